@@ -6,8 +6,11 @@
 3. store patch, demo, meta (+ what was observed) under /verif/seeded/<PID>-<slug>/."""
 import json, os, re, subprocess, sys, shutil
 pid, slug, checks = sys.argv[1], sys.argv[2], sys.argv[3:]
-wt = "/tmp/seed-%s" % pid
-out = "/tmp/seedout/%s" % pid
+rnd = ""
+if "@" in pid:
+    pid, rnd = pid.split("@")
+wt = "/tmp/seed%s-%s" % (rnd, pid)
+out = "/tmp/seedout%s/%s" % (rnd, pid)
 meta = json.load(open(out + "/meta.json"))
 def sh(cmd, cwd=None, timeout=3600):
     p = subprocess.run(cmd, shell=True, cwd=cwd, stdout=subprocess.PIPE, stderr=subprocess.STDOUT, text=True, timeout=timeout)
